@@ -10,7 +10,7 @@ META = {
     "engine": "sticky",
     "text": "TLC model-checks StickyLife.tla (all histories of up to MaxReq requests whose method scripts range over "
             "every sequence of open/close/use/noop of length <= 2, the open/close-led ones of length 3 and six of length 4 "
-            "(two opens / two closes in one request), sent through the client's session view or the "
+            "(two opens / two closes in one request) and the end of the with_session_token() block (Exit), sent through the client's session view or the "
             "plain connection, with drain toggled at any point) against ViewExact / OpenOnlyWithOptIn / "
             "NeverOpenWhileDraining / DrainErrorIsTyped / ExistingServeDuringDrain; histories from TLC's state graph "
             "are replayed through the real http client view (with_session_token) against a real WSGI worker, and "
